@@ -64,7 +64,7 @@ type goStore struct {
 
 func (s *goStore) Name() string    { return s.name }
 func (s *goStore) Root() node.Node { return s.root }
-func (s *goStore) MapLists() bool  { return true }
+func (s *goStore) MapLists() bool  { return !s.slices }
 func (s *goStore) Snapshot(m *meta.Module) *model.Tree {
 	return InspectGo(m.DataDefinitions(), s.data)
 }
